@@ -635,8 +635,9 @@ func TestVerifC09Stress(t *testing.T) {
 		rd.m.RLock()
 		nReg, nTo := rd.totalRegistrations(), len(rd.decoysTimeouts)
 		orphan := 0
-		for _, to := range rd.decoysTimeouts {
-			if _, ok := rd.decoys[to.decoy][to.identifier]; !ok {
+		for key, to := range rd.decoysTimeouts {
+			toDecoy, toID := vTimeoutOf(to, key)
+			if _, ok := rd.decoys[toDecoy][toID]; !ok {
 				orphan++
 			}
 		}
